@@ -336,6 +336,102 @@ func firstLines(s string, n int) string {
 	return strings.Join(lines, "\n")
 }
 
+// One executes a single run (by index) and prints its record; for debugging.
+func One(prop *Property, tier string, seed uint64, run int) int {
+	runSeed := core.SplitMix64(seed ^ core.SplitMix64(uint64(run)+1))
+	plan := prop.Gen(core.NewRng(runSeed), tier)
+	plan.Prop = prop.ID
+	t0 := time.Now()
+	out := execGuard(prop, plan)
+	b, _ := json.MarshalIndent(map[string]any{"run_seed": runSeed, "plan": plan, "out": out, "wall_ms": time.Since(t0).Milliseconds()}, "", " ")
+	fmt.Println(string(b))
+	if out.Violation != nil {
+		return 1
+	}
+	return 0
+}
+
+// Digest prints the canonical-log digest of one run (determinism self-test).
+func Digest(prop *Property, tier string, seed uint64, run int) int {
+	runSeed := core.SplitMix64(seed ^ core.SplitMix64(uint64(run)+1))
+	plan := prop.Gen(core.NewRng(runSeed), tier)
+	plan.Prop = prop.ID
+	out := execGuard(prop, plan)
+	if out.ToolError != "" {
+		fmt.Println("ERR", out.ToolError)
+		return 2
+	}
+	v := "-"
+	if out.Violation != nil {
+		v = out.Violation.Signature
+	}
+	fmt.Printf("%s %s %d %s\n", prop.ID, out.Digest, out.Evals, v)
+	return 0
+}
+
+// Selftest proves replay determinism on a sample: every run index is
+// executed in `repeats` fresh processes at several GOMAXPROCS values and the
+// canonical-log digests must agree.
+func Selftest(props []*Property, seed uint64, runs int) int {
+	self, _ := os.Executable()
+	type job struct {
+		prop string
+		run  int
+		gmp  int
+	}
+	gmps := []int{1, 4, 16, 1}
+	var jobs []job
+	for _, p := range props {
+		for r := 0; r < runs; r++ {
+			for _, g := range gmps {
+				jobs = append(jobs, job{p.ID, r, g})
+			}
+		}
+	}
+	results := make([]string, len(jobs))
+	sem := make(chan struct{}, 12)
+	var wg sync.WaitGroup
+	for i, j := range jobs {
+		wg.Add(1)
+		sem <- struct{}{}
+		go func(i int, j job) {
+			defer wg.Done()
+			defer func() { <-sem }()
+			cmd := exec.Command(self, "digest", "-prop", j.prop, "-seed", fmt.Sprint(seed), "-run", fmt.Sprint(j.run))
+			cmd.Env = append(os.Environ(), fmt.Sprintf("GOMAXPROCS=%d", j.gmp))
+			b, err := cmd.Output()
+			if err != nil {
+				results[i] = "ERR " + err.Error()
+				return
+			}
+			results[i] = strings.TrimSpace(string(b))
+		}(i, j)
+	}
+	wg.Wait()
+	bad := 0
+	for i := 0; i < len(jobs); i += len(gmps) {
+		first := results[i]
+		ok := !strings.HasPrefix(first, "ERR")
+		for k := 1; k < len(gmps); k++ {
+			if results[i+k] != first {
+				ok = false
+			}
+		}
+		if !ok {
+			bad++
+			fmt.Printf("DIVERGENCE %s run %d:\n", jobs[i].prop, jobs[i].run)
+			for k := range gmps {
+				fmt.Printf("  GOMAXPROCS=%d: %s\n", gmps[k], results[i+k])
+			}
+		}
+	}
+	fmt.Printf("selftest: %d (property,run) pairs x %d processes, %d divergent\n", len(jobs)/len(gmps), len(gmps), bad)
+	if bad > 0 {
+		return 2
+	}
+	return 0
+}
+
 // ------------------------------------------------------------ parent side
 
 type Evidence struct {
@@ -370,6 +466,7 @@ func Check(prop *Property, tier string, seed uint64, workers int, verifDir strin
 			cmd := exec.Command(self, "worker", "-prop", prop.ID, "-tier", tier, "-seed", fmt.Sprint(seed),
 				"-idx", fmt.Sprint(i), "-of", fmt.Sprint(workers), "-verif", verifDir)
 			cmd.Stderr = os.Stderr
+			cmd.Env = append(os.Environ(), "GOMAXPROCS=1")
 			stdout, err := cmd.StdoutPipe()
 			if err != nil {
 				codes[i] = 2
